@@ -220,6 +220,9 @@ def add_faults(casefn, kinds, frac=0.6, cont=0.0):
                     c["faults"] += gen.gen_faults(rng, c, nsig, rng.choice([2, 4, 6, 9]), kinds)
                 if rng.random() < cont:
                     c["cont"] = 1
+                # the FIRST answer defines the layout (any subset and permutation of the output-capable signals):
+                # at call 0 only faults that keep it such a layout are meaningful as "the first answer"
+                c["faults"] = [((1 if (k == 0 and what.split()[0] in ("add", "dup", "subst")) else k), what) for k, what in c["faults"]]
         return cases
     return f
 
@@ -1195,3 +1198,14 @@ def lex_cases(seed, n):
         text = "".join(rng.choice(frag) for _ in range(k))
         cases.append({"id": "lex-%d" % i, "kind": "lex" if i % 4 else "hlex", "src": text})
     return cases
+
+
+for _p in ("C09", "C10", "C11"):
+    PROPS[_p]["audits"] = ["panic"]
+
+
+# ------------------------------------------------------------------ C16: .dig loading (tools/families_c16.py, tools/gen_dig.py)
+
+from families_c16 import PROP_C16  # noqa: E402
+PROPS["C16"] = PROP_C16
+PROPS["C16"]["audits"] = ["panic"]
